@@ -1417,9 +1417,11 @@ def compute_keypoints(values,
   """
   # Remove default values before calculating stats.
   non_default_idx = values != default_value
-  values = values[non_default_idx]
+  # Stats are computed in float64 whatever the dtype of values and weights:
+  # float32 sums and linspace lose the last keypoint or repeat keypoints.
+  values = values[non_default_idx].astype(float)
   if weights is not None:
-    weights = weights[non_default_idx]
+    weights = weights[non_default_idx].astype(float)
 
   # Clip min and max if requested. Note that we add clip bounds to the values
   # so that the first and last keypoints are set to those values.
